@@ -218,10 +218,155 @@ def standin_ionq(tier, seed):
                 pr = cirq_ionq.SimulatorResult({value: 1.0}, n, {"k": list(targets)}, repetitions=2)
                 if pr.probabilities("k") != {want_int: 1.0}:
                     fails.append(dict(args=dict(num_qubits=n, targets=targets, value=value), failed="probabilities", clause="SimulatorResult.probabilities marginalises onto the wrong bits"))
+    # the endianness conversion itself: bit j of the result is bit (n-1-j) of the value, every value of every width <= 7
+    from cirq_ionq import job as _job
+
+    for n in range(1, 8):
+        for value in range(2 ** n):
+            cases += 1
+            got = _job._little_endian_to_big(value, n)
+            want = sum(((value >> j) & 1) << (n - 1 - j) for j in range(n))
+            if got != want:
+                fails.append(dict(args=dict(value=value, bit_count=n), failed="endianness", clause=f"_little_endian_to_big({value}, {n}) = {got}, the bit reversal is {want}"))
+                break
     return dict(function=F + ":Serializer.serialize_single_circuit + results.py", case="ionq",
                 bound="seeded QIS / native circuits (2-4 qubits, <= 5 ops, exponents near the special-case thresholds) + 1-2 measurement keys; all results on <= 3 qubits",
                 cases=cases, distinct=cases, failures=len(fails), exhaustive=False, _fails=fails[:4])
 standin_ionq.prop = "C17"
+
+
+class _FakeIonQ:
+    """an IonQ API endpoint: stores posted jobs, runs the posted program with IonQ's documented gate meanings, and answers result requests
+    with probability histograms keyed by the LITTLE-endian integer of the outcome (qubit 0 is the least significant bit)"""
+
+    class Resp:
+        def __init__(self, body):
+            self.status_code, self.ok, self._b = 200, True, body
+
+        def json(self):
+            return self._b
+
+    def __init__(self):
+        self.jobs = {}
+
+    def post(self, url, json=None, headers=None, **kw):
+        jid = f"job{len(self.jobs)}"
+        self.jobs[jid] = json
+        return self.Resp({"id": jid, "status": "ready"})
+
+    def get(self, url, params=None, headers=None, **kw):
+        parts = url.split("/jobs/")[1].split("/")
+        job = self.jobs[parts[0]]
+        inp = job["input"]
+        if len(parts) == 1:
+            return self.Resp({"id": parts[0], "status": "completed", "backend": job["backend"], "target": job["backend"], "name": job.get("name", ""), "metadata": job["metadata"],
+                              "stats": {"qubits": inp["qubits"]}, "qubits": inp["qubits"]})
+        circuits = [c["circuit"] for c in inp["circuits"]] if "circuits" in inp else [inp["circuit"]]
+        hists = {}
+        for i, ops in enumerate(circuits):
+            n = inp["qubits"]
+            U = interpret_ionq({"qubits": n, "circuit": [o for o in ops if o["gate"] != "meas"]})
+            psi = U[:, 0]
+            h = {}
+            for idx, amp in enumerate(psi):
+                p = abs(amp) ** 2
+                if p > 1e-12:
+                    bits = [(idx >> (n - 1 - q)) & 1 for q in range(n)]  # interpret_ionq is big-endian over qubit 0..n-1
+                    h[str(sum(b << q for q, b in enumerate(bits)))] = p
+            hists[f"circuit-{i}"] = h
+        return self.Resp(hists if "circuits" in inp else hists["circuit-0"])
+
+
+def standin_ionq_jobs(tier, seed):
+    """submission -> (fake) IonQ endpoint -> results, through the real Service / client / Job / result classes: every key of every circuit of
+    single and batch jobs (circuits of different widths in one batch) carries the outcome distribution cirq's own semantics gives it"""
+    import cirq
+    import cirq_ionq
+    import cirq_ionq.ionq_client as ic
+
+    rng = random.Random(seed + 3)
+    cases, fails = 0, []
+    fake = _FakeIonQ()
+    real_post, real_get = ic.requests.post, ic.requests.get
+    ic.requests.post, ic.requests.get = fake.post, fake.get
+    try:
+        for it in range(60 if tier == "quick" else 400):
+            target = rng.choice(["simulator", "qpu"])
+            batch = rng.random() < 0.6
+            circuits, expects = [], []
+            for _ in range(rng.randrange(2, 4) if batch else 1):
+                n = rng.choice([1, 2, 3, 4])
+                qs = cirq.LineQubit.range(n)
+                ops = [cirq.X(q) for q in qs if rng.random() < 0.5]
+                if rng.random() < 0.6:
+                    ops.append(cirq.H(rng.choice(qs)))
+                if n >= 2 and rng.random() < 0.5:
+                    a, b = rng.sample(qs, 2)
+                    ops.append(cirq.CNOT(a, b))
+                if not ops:
+                    ops = [cirq.X(qs[0])]
+                kq = rng.sample(qs, rng.randrange(1, n + 1))
+                meas = [cirq.measure(*kq, key="k")]
+                rest = [q for q in qs if q not in kq]
+                if rest and rng.random() < 0.5:
+                    meas.append(cirq.measure(*rng.sample(rest, len(rest)), key="other"))
+                c = cirq.Circuit(ops, meas)
+                all_q = cirq.LineQubit.range(max(q.x for q in c.all_qubits()) + 1)
+                psi = refsim.ref_unitary(cirq.Circuit(ops), list(all_q))[:, 0]
+                exp = {}
+                for m in meas:
+                    d = {}
+                    for idx, amp in enumerate(psi):
+                        p = abs(amp) ** 2
+                        if p > 1e-12:
+                            bits = [(idx >> (len(all_q) - 1 - q.x)) & 1 for q in m.qubits]
+                            d[int("".join(map(str, bits)), 2)] = d.get(int("".join(map(str, bits)), 2), 0) + p
+                    exp[cirq.measurement_key_name(m)] = d
+                circuits.append(c)
+                expects.append(exp)
+            service = cirq_ionq.Service(remote_host="http://fake.invalid", api_key="key", default_target=target)
+            reps = 100
+            try:
+                if batch:
+                    job = service.create_batch_job(circuits, repetitions=reps, target=target)
+                else:
+                    job = service.create_job(circuits[0], repetitions=reps, target=target)
+                res = job.results(polling_seconds=0)
+            except Exception as ex:
+                fails.append(dict(args=dict(circuits=[repr(c) for c in circuits], target=target), failed="job-raised", clause=f"{type(ex).__name__}: {str(ex)[:200]}"))
+                continue
+            res = res if isinstance(res, list) else [res]
+            cases += 1
+            if len(res) != len(circuits):
+                fails.append(dict(args=dict(circuits=[repr(c) for c in circuits], target=target), failed="result-count", clause=f"{len(res)} results for {len(circuits)} circuits"))
+                continue
+            for i, (r, exp, c) in enumerate(zip(res, expects, circuits)):
+                for key, d in exp.items():
+                    if target == "simulator":
+                        got = {k: v for k, v in r.probabilities(key).items() if v > 1e-12}
+                        ok = set(got) == set(d) and all(abs(got[k] - d[k]) < 1e-9 for k in d)
+                    else:
+                        got = dict(r.counts(key))
+                        ok = set(got) == set(d) and all(abs(got[k] - reps * d[k]) <= 1 for k in d)
+                        rows = r.to_cirq_result().measurements[key]
+                        col = {}
+                        for row in rows:
+                            v = int("".join(str(int(b)) for b in row), 2)
+                            col[v] = col.get(v, 0) + 1
+                        ok = ok and col == got
+                    if not ok:
+                        fails.append(dict(args=dict(circuits=[repr(c_) for c_ in circuits], target=target, circuit_index=i, key=key), failed="job-results",
+                                          clause=f"key {key!r} of circuit {i}: results give {got}, the circuit gives {({k: (v if target == 'simulator' else reps * v) for k, v in d.items()})}"))
+                        break
+            if len(fails) >= 3:
+                break
+    finally:
+        ic.requests.post, ic.requests.get = real_post, real_get
+    return dict(function="cirq-ionq/cirq_ionq/{service,ionq_client,job,results}.py[submit -> results]", case="ionq-jobs",
+                bound="seeded single and batch jobs (1-3 circuits of 1-4 qubits with different widths, X/H/CNOT + 1-2 keys on permuted qubits) on simulator and qpu targets against a fake endpoint "
+                      "that executes the posted program with the documented gate meanings and answers little-endian histograms",
+                cases=cases, distinct=cases, failures=len(fails), exhaustive=False, _fails=fails[:3])
+standin_ionq_jobs.prop = "C17"
 
 
 def standin_ionq_measurement_table(tier, seed):
@@ -321,7 +466,7 @@ def standin_aqt(tier, seed):
     return dict(function="cirq-aqt/cirq_aqt/aqt_sampler.py:AQTSampler._generate_json", case="aqt", bound="seeded circuits over Z/R/MS, 2-3 qubits, <= 5 ops",
                 cases=cases, distinct=cases, failures=len(fails), exhaustive=False, _fails=fails[:3])
 standin_aqt.prop = "C17"
-STANDINS = [standin_ionq, standin_aqt, standin_ionq_measurement_table]
+STANDINS = [standin_ionq, standin_aqt, standin_ionq_measurement_table, standin_ionq_jobs]
 
 NOT_COVERED = [
     "Serializer gate-by-gate payload semantics (_serialize_*_pow_gate thresholds), _near_mod_n, _serialize_measurements chunking, _little_endian_to_big: bounded only",
